@@ -99,7 +99,7 @@ _PM_SHAPES = [
 ]
 contract(MDQ + "process_metadata", props=["C09", "C14", "C15", "C10", "C11", "C06"], oracle="process_metadata",
          pools={"kdict_shapes": _PM_SHAPES, "str": ["A", "B"], "len": [0, 1, 2, 2, 3, 3, 4], "MD.name": [_S("A"), _S("B")], "MD.script": [{"t": "list", "v": [_S("l1")]}, {"t": "list", "v": []}], "extended_properties": [{"t": "dict", "v": []}]},
-         params=dict(md_list=TList(MD), extended_properties=TDict(Str, Int)), result=TList(Spec),
+         params=dict(md_list=TList(MD), extended_properties=TDict(Str, Spec)), result=TList(Spec),
          requires=[("no_extended_properties", "len(extended_properties) == 0")],
          modifies=["global:func_adl_xAOD.common.cpp_types.g_method_type_dict", "global:func_adl_xAOD.common.cpp_types.g_toplevel_ns", "alloc",
                    "_type", "_p_depth", "_is_const", "_tree_type", "_element_type"],
